@@ -168,3 +168,46 @@ func VerifH_C10_HasherAcceptsOnlyRequested() {
 		nd.Cover("foreign")
 	}
 }
+
+// CID -> identifier -> CID: whatever CID the decoder accepts for a block type
+// is the identifier's own (canonical) CID - no second CID names the same
+// identifier. The CID's prefix (version, codec, multihash code, digest length)
+// is ARBITRARY bytes; the digest is a valid identifier of the type.
+//
+//verif:opts nopanic cover=accepted,refused
+func VerifH_C10_AcceptedCIDIsTheCanonicalOne() {
+	var want cid.Cid
+	switch nd.Choice(4, "blockType") {
+	case 0:
+		b, err := NewEmptySampleBlock(5, shwap.SampleCoords{Row: 1, Col: 2}, 4)
+		nd.Assume(err == nil)
+		want = b.CID()
+	case 1:
+		b, err := NewEmptyRowBlock(5, 1, 4)
+		nd.Assume(err == nil)
+		want = b.CID()
+	case 2:
+		b, err := NewEmptyRowNamespaceDataBlock(5, 1, verifNsForCID(), 4)
+		nd.Assume(err == nil)
+		want = b.CID()
+	case 3:
+		b, err := NewEmptyRangeNamespaceDataBlock(5, 0, 2, 2)
+		nd.Assume(err == nil)
+		want = b.CID()
+	}
+	wb := want.Bytes()
+	const prefixLen = 8 // version, codec (3-byte varint), multihash code (3-byte varint), digest length
+	inner := append(nd.Bytes(prefixLen, "cidPrefix"), wb[prefixLen:]...)
+	c, err := cid.Cast(inner)
+	if err != nil {
+		nd.Cover("refused")
+		return
+	}
+	blk, err := EmptyBlock(c)
+	if err != nil {
+		nd.Cover("refused")
+		return
+	}
+	nd.Cover("accepted")
+	nd.Assert(bytes.Equal(blk.CID().Bytes(), inner), "accepted-cid-is-the-identifiers-own-cid")
+}
